@@ -242,6 +242,32 @@ def shrink_case(prop, case, still_fails, budget=200):
     return cur
 
 
+def failing_obligation(b) -> str:
+    """Name the Coq statement at which the build stopped (last 'File "./X.v", line N' of the log)."""
+    import re
+
+    m = None
+    for m in re.finditer(r'File "\./([^"]+\.v)", line (\d+)', b.log or ""):
+        pass
+    if m is None:
+        return ""
+    path, line = m.group(1), int(m.group(2))
+    name = None
+    try:
+        with open(os.path.join(build.COQ, path)) as fh:
+            for i, text in enumerate(fh, start=1):
+                if i > line:
+                    break
+                mm = re.match(r"\s*(?:Theorem|Lemma|Corollary|Definition|Example|Fixpoint)\s+(\w+)", text)
+                if mm:
+                    name = mm.group(1)
+    except OSError:
+        pass
+    err = (b.log or "")[m.end():].strip().splitlines()
+    first = " ".join(x.strip() for x in err[1:4]) if err else ""
+    return f": {path} line {line}" + (f", in {name}" if name else "") + (f" ({first[:200]})" if first else "")
+
+
 def run_check(prop: Prop, tier: str, seed: int) -> int:
     t0 = time.time()
     sys.setrecursionlimit(max(sys.getrecursionlimit(), 1000))
@@ -253,10 +279,21 @@ def run_check(prop: Prop, tier: str, seed: int) -> int:
     broken = []  # things that no longer check (names)
     have_model = True
     if not b.ok:
-        broken.append(f"build stage '{b.stage}' failed")
+        broken.append(f"build stage '{b.stage}' failed" + failing_obligation(b))
         if b.stage in ("translate", "coq_makefile", "forbidden-constructs", "model-build", "driver-build"):
             have_model = os.path.exists(build.DRIVER) and b.stage not in ("model-build", "driver-build")
     axioms = {k: v for k, v in b.assumptions.items() if v != "Closed under the global context"}
+    audit_findings = None
+    if any("audit" in x for x in broken):
+        try:
+            sys.path.insert(0, os.path.join(build.VERIF, "tools"))
+            import audit
+
+            fnd, fresh, why = audit.run()
+            audit_findings = [x for v in fnd.values() for x in v] + list(why)
+            broken.append("state audit of the source: " + "; ".join(audit_findings)[:1500])
+        except Exception as e:  # noqa: BLE001
+            broken.append(f"state audit could not be re-run: {e}")
 
     chk_out = None
     if tier == "thorough" and b.ok and prop.prop_file:
